@@ -61,6 +61,16 @@ def check_views(L, w, acc_shape=None, fill='garbage', seed=0, weight=1.0):
     out['field_ok'] = f.shape == shape and rel_err(f, total, scale) <= 1e-12
     out['views_ok'] = inten.shape == shape and rel_err(inten, np.abs(f) ** 2, scale ** 2) <= 1e-12
     out['views_detail'] = 'max |intensity - |field|^2| / max|field|^2 = %.3g' % rel_err(inten, np.abs(f) ** 2, scale ** 2)
+    # the views are the caller's own arrays: after it has written into them (psf /= psf.max(), img[...] = 0) a second reading
+    # still shows the wavefront
+    keep_f, keep_i = f.copy(), inten.copy()
+    if f.flags.writeable and inten.flags.writeable and f.size:
+        f[...] = -3.0 + 2.0j
+        inten *= 0.25
+        inten += 11.0
+        f2, i2 = w.field, w.intensity
+        out['reread_ok'] = bool(f2.shape == keep_f.shape and np.array_equal(f2, keep_f) and i2.shape == keep_i.shape and np.array_equal(i2, keep_i))
+    f, inten = keep_f, keep_i
     # overlap statistics (state measure)
     _, all_m, any_m = dense.coverage(w)
     cover = np.zeros(shape, dtype=int)
@@ -357,6 +367,12 @@ def h_dispersive_ramp(L, m, trace, dispersion, wavelength, z, dx):
     return h_segment_ramp(L, m, [[-Y / z, -X / z]], dx)
 
 
+def h_add_ramp(L, plane, tx, ty):
+    """The owner of a (private) plane adds tilt to its OPD on the plane's own grid, through the documented attribute."""
+    plane.opd = np.asarray(plane.opd, dtype=float) + dense.ramp(tuple(plane.shape), tx, ty, plane.pixelscale)
+    return plane
+
+
 def h_refit(L, plane, add_opd):
     """History carrier, one atomic step for the minimiser: fit in place, update the OPD, fit in place again."""
     plane.fit_tilt(inplace=True)
@@ -367,6 +383,7 @@ def h_refit(L, plane, add_opd):
 
 HELPERS = {
     'h.refit': h_refit,
+    'h.add_ramp': h_add_ramp,
     'h.layout': h_layout,
     'h.dispersive_ramp': h_dispersive_ramp,
     'h.global_mask': h_global_mask,
@@ -500,6 +517,8 @@ class ViewsHooks(Hooks):
                 if r.focal_length != want_f:
                     it.violate('C07.meta', {'what': 'focal-length', 'plane': type(p).__name__},
                                'focal length after %s is %r, expected %r' % (type(p).__name__, r.focal_length, want_f), i)
+                if tag.get('reused_plane'):
+                    it.probe('plane_reused_at_another_sampling')
                 if tag.get('default_plane'):
                     it.probe('default_plane')
                     same = (tuple(r.shape) == tuple(w.shape) and str(r.ptype) == str(w.ptype) and
@@ -527,6 +546,11 @@ class ViewsHooks(Hooks):
                 it.violate('C07.views', {'what': 'field-vs-fields'}, '.field is not the coherent sum of the wavefront\'s fields', i)
             if not v['views_ok']:
                 it.violate('C07.views', {'what': 'intensity-vs-field', 'overlap': v['overlap']}, v['views_detail'], i)
+            if 'reread_ok' in v:
+                it.probe('views_reread_after_caller_write')
+                if not v['reread_ok']:
+                    it.violate('C07.views', {'what': 'second-reading-differs-after-caller-write'},
+                               'field / intensity read a second time, after the caller wrote into the arrays the first reading returned, differ from the first reading', i)
             it.probe('check:insert')
             if not v['insert_ok'] or not v['insert_same_object']:
                 it.violate('C07.insert', {'what': 'accumulate' if v['insert_same_object'] else 'returns-other-array',
@@ -546,6 +570,8 @@ class ViewsHooks(Hooks):
                 it.fault('attribute_update')
             if tag.get('combo'):
                 it.probe('attributes:' + tag['combo'])
+            if tag.get('slit'):
+                it.probe('slit_plane')
             if not out.value['ok']:
                 it.violate('C07.phasor', {'what': 'pointwise-phasor', 'nplanes': min(tag.get('nplanes', 1), 3)}, out.value['detail'], i)
         elif fn == 'check.phasor' and not out.ok:
@@ -587,7 +613,8 @@ class ViewsScenario(OpticsBase):
                    'NaN/inf accumulators are replaced by loud finite garbage: before + w*intensity is NaN by arithmetic there']
     must_hit = ['three_fields_overlap', 'clip:lo0', 'clip:hi0', 'clip:lo1', 'clip:hi1', 'clip:outside', 'scalar_plane',
                 'two_segmented_planes', 'px_conflict', 'default_plane', 'nfields:1', 'nfields:3+', 'disjoint_pair_bridged',
-                'phasor_after_caller_write', 'phasor_after_attribute_update']
+                'phasor_after_caller_write', 'phasor_after_attribute_update', 'slit_plane', 'plane_reused_at_another_sampling',
+                'views_reread_after_caller_write']
     probe_names = must_hit + ['coldwarm_audit', 'attributes:scalar-amplitude', 'attributes:no-opd', 'attributes:mask-only', 'attributes:typed-mask',
                               'attributes:layouts']
 
@@ -714,8 +741,23 @@ class ViewsScenario(OpticsBase):
                 w = mul(p, w_before, caller_write=True)
                 b.E('check.phasor', ['@' + w, ['@' + x for x in planes], ph['wl']],
                     t={'nplanes': len(planes), 'caller_write': True}, tag='c')
-            if rng.random() < 0.3:
+            if (rng.random() < 0.2 or force.get('slit')) and min(world['shapes'][sname]) >= 3:
+                # a slit: the stop's mask is a single row or column (never fitted), so products are one sample thick
+                S_ = world['shapes'][sname]
+                row = rng.random() < 0.5
+                sl = b.A({'kind': 'rect', 'shape': sname, 'half': [0, S_[1] // 2] if row else [S_[0] // 2, 0], 'dr': rng.choice([0, 1, -1]) if row else 0,
+                          'dc': 0 if row else rng.choice([0, 1, -1]), 'degenerate_ok': True}, 'm')
+                kws = {'mask': '@' + sl, 'pixelscale': ph['dx'], 'focal_length': ph['f']}
+                if rng.random() < 0.5:
+                    kws['amplitude'] = '@' + b.A({'kind': 'uniform', 'shape': sname, 'lo': 0.4, 'hi': 1.0, 'seed': b.sd()})
+                ps = b.E('Pupil', None, kws, tag='p')
+                planes.append(ps)
+                w = mul(ps, w, slit=True)
+                b.E('check.phasor', ['@' + w, ['@' + x for x in planes], ph['wl']], t={'nplanes': len(planes), 'slit': True}, tag='c')
+                views(w)
+            if rng.random() < 0.3 or force.get('reuse_tilt'):
                 tl = b.E('Tilt', None, {'x': rng.uniform(-4, 4) * 1e-6, 'y': rng.uniform(-4, 4) * 1e-6}, tag='t')
+                flags['tilt_plane'] = tl
                 w2 = mul(tl, w)
                 b.E('check.phasor', ['@' + w2, ['@' + x for x in planes], ph['wl']], t={'nplanes': len(planes), 'tilt_plane': True}, tag='c')
                 w = w2
@@ -741,6 +783,10 @@ class ViewsScenario(OpticsBase):
                 k['mask'] = '@' + om
             wi = b.E('propagate_dft', ['@' + w], k, tag='w', t={'expect': 'ok'})
             views(wi)
+            if flags.get('tilt_plane') and (rng.random() < 0.5 or force.get('reuse_tilt')):
+                # the SAME sampling-less plane objects meet a wavefront of another sampling (image side): still legal, still no effect on the field
+                wi2 = mul(flags['tilt_plane'], wi, reused_plane=True)
+                views(wi2)
             if rng.random() < 0.3 or force.get('default'):
                 # image-side plane whose (micron-scale) pixel size is off by a fraction of a percent: still a conflict
                 du_s = (du if isinstance(du, float) else du[0]) / os_
@@ -782,7 +828,7 @@ class ViewsScenario(OpticsBase):
         runs = []
         cases = [{'S': [7, 8], 'npup': 2, 'seg': True, 'propagate': True, 'acc': 'offside', 'default': True, 'spread': True},
                  {'S': [6, 6], 'npup': 3, 'seg': True, 'propagate': True, 'acc': 'tiny', 'default': True},
-                 {'S': [9, 5], 'npup': 2, 'seg': True, 'propagate': True, 'acc': 'smaller', 'default': True},
+                 {'S': [9, 5], 'npup': 2, 'seg': True, 'propagate': True, 'acc': 'smaller', 'default': True, 'slit': True, 'reuse_tilt': True},
                  {'S': [5, 9], 'npup': 1, 'seg': False, 'propagate': True, 'acc': 'larger', 'default': True, 'caller_write': True}]
         for j, force in enumerate(cases * 3):
             rng = random.Random(verif_seed * 67867967 + j)
@@ -864,6 +910,9 @@ class TiltHooks(Hooks):
                 it.violate('C04.equiv', {'carrier': carrier, 'what': 'nonzero-outside-windows'}, 'field is non-zero outside every evaluated window', i)
         elif fn == 'check.fit':
             it.probe('check:fit')
+            if tag.get('history'):
+                it.probe('fit:' + tag['history'])
+                it.fault('refit')
             for name, what in (('zero', 'residual-tilt'), ('piston', 'piston-changed'), ('sum', 'opd-plus-recorded-tilt')):
                 if not v[name]:
                     it.violate('C04.fit', {'what': what, 'segmented': tag.get('segmented', False)}, v['detail'], i)
@@ -912,7 +961,7 @@ class TiltScenario(OpticsBase):
                 'carrier:wavefront-tilt', 'carrier:fit', 'carrier:refit', 'carrier:dispersive', 'carrier:wavefront-tilt+fit',
                 'carrier:tilt-planes-before-pupil', 'carrier:fan-out', 'carrier:same-wavefront-resampled', 'carrier:same-tilt-twice',
                 'trace_order:1/1', 'carrier:fit-inplace', 'noncontiguous_opd', 'carrier:dispersive-high-order', 'trace_negative_arc',
-                'trace_negative_arc_high_order', 'dispersive_blue', 'dispersive_red', 'pupil_per_axis_pixels', 'output_mask']
+                'trace_negative_arc_high_order', 'dispersive_blue', 'dispersive_red', 'pupil_per_axis_pixels', 'output_mask', 'fit:fit-rescale-refit']
     probe_names = must_hit + ['coldwarm_audit', 'no_common_samples', 'trace_order:2/1', 'trace_order:1/2', 'trace_order:2/2', 'trace_order:3/1']
 
     def program(self, rng, world, force=None):
@@ -1102,6 +1151,22 @@ class TiltScenario(OpticsBase):
             prr = b.E('h.refit', ['@' + pr, '@' + rg], tag='q')
             wr_pre, ir = image(prr)
             b.E('check.equiv', ['@' + ir, '@' + ie, '@' + wr_pre, '@' + we_pre], t=dict(base_t, carrier='refit', refit=True), tag='c')
+        # ---- history: fit, rescale the fitted plane, its OPD gains new tilt, fit again -- the second fit is a fresh least-squares
+        #      problem on the new grid (nothing learnt on the old grid applies)
+        if rng.random() < 0.35 or force:
+            o_h = b.E('np.copy', ['@' + o_all], tag='o')        # a private copy: the in-place form writes through to the array the plane views
+            ph_ = b.E('Pupil', None, dict(pkw, opd='@' + o_h, mask='@' + m), tag='p')
+            qh = b.E('Plane.fit_tilt', ['@' + ph_], {'inplace': rng.random() < 0.5}, tag='q')
+            rh = b.E(rng.choice(['Plane.rescale', 'Plane.rescale', 'Plane.resample']), ['@' + qh, rng.choice([2.0, 1.5, 3.0])], tag='q')
+            if b.events[-1]['fn'] == 'Plane.resample':
+                b.events[-1]['a'][1] = (dx if isinstance(dx, float) else dx[0]) / b.events[-1]['a'][1]
+                if not isinstance(dx, float):
+                    b.events[-1]['fn'] = 'Plane.rescale'
+                    b.events[-1]['a'][1] = 2.0
+            rh0 = b.E('h.add_ramp', ['@' + rh, gx * rng.uniform(0.3, 1.5), gy * rng.uniform(0.3, 1.5)], tag='q')
+            rh1 = b.E('Plane.copy', ['@' + rh0], tag='q')
+            rh2 = b.E('Plane.fit_tilt', ['@' + rh0], {'inplace': rng.random() < 0.5}, tag='q')
+            b.E('check.fit', ['@' + rh1, '@' + rh2], t={'segmented': k > 1, 'history': 'fit-rescale-refit'}, tag='c')
         # ---- carrier: dispersive elements of first and higher order, red and blue of the reference wavelength (negative arc
         #      lengths); the twin carries the displacement of the statement's clause, solved independently, as an OPD ramp
         if (rng.random() < 0.6 or force) and mag != 'beyond':
